@@ -114,6 +114,7 @@ def gen_doc(rng, nested=True):
             if not t[0].isalpha(): t = "T " + t     # "> x" or "* x" above an underline is a quote / list, not a heading
             head = t + nl + ("=" if l == 1 else "-") * rng.randint(3, 8) + nl
         elif style < 0.6:
+            if rng.random() < 0.2: t = rng.choice(["C#", "F# and C#", "Item #"]) if rng.random() < 0.7 else t + " #"   # inside closing hashes a title may end in '#'
             head = "#" * l + " " + t + " " + "#" * rng.randint(1, 6) + nl
         else:
             head = "#" * l + " " + t + nl
